@@ -55,16 +55,16 @@ def fragF : FieldDecl → Bool
   | .enumLit vs => !vs.isEmpty && vs.all enumValOk && jsonNodup vs
   | .enumCls _ names => !names.isEmpty && nodupS names
   | .seqAny k sz => k == .list && !sz.uniq
-  | .seqOf k f sz => k == .list && fragF f && (!sz.uniq || uniqSafe f)
+  | .seqOf k f sz => k == .list && fragF f && !sz.uniq
   | .seqPos k fs _ sz => k == .list && !fs.isEmpty && fragL fs && !sz.uniq
   | .setAny _ _ => false
-  | .setOf _ f _ => fragF f && uniqSafe f
+  | .setOf _ _ _ => false
   | .tupleOf f _ => fragF f
   | .tuplePos fs u => !fs.isEmpty && fragL fs && !u
   | .mapAny _ => true
   | .mapOf k v _ => plainKey k && fragF v
-  | .struct c fields _ =>
-    !collapses c (fields.map (·.1)) && nodupS (fields.map (·.1)) && fragP fields
+  | .struct c fields defaults =>
+    !collapses c (fields.map (·.1)) && nodupS (fields.map (·.1)) && defaults.isEmpty && fragP fields
   | .anyOf fs =>
     if optShape fs then fragOpt fs else !fs.isEmpty && fs.all plainScalar && fragL fs
   | .oneOf _ => false
